@@ -31,9 +31,9 @@ func (a H) Cross(b H) H {
 	}
 }
 
-func (a H) Sub(b H) H   { return H{nf().Sub(a[0], b[0]), nf().Sub(a[1], b[1]), nf().Sub(a[2], b[2])} }
-func (a H) Add(b H) H   { return H{nf().Add(a[0], b[0]), nf().Add(a[1], b[1]), nf().Add(a[2], b[2])} }
-func (a H) Neg() H      { return H{nf().Neg(a[0]), nf().Neg(a[1]), nf().Neg(a[2])} }
+func (a H) Sub(b H) H         { return H{nf().Sub(a[0], b[0]), nf().Sub(a[1], b[1]), nf().Sub(a[2], b[2])} }
+func (a H) Add(b H) H         { return H{nf().Add(a[0], b[0]), nf().Add(a[1], b[1]), nf().Add(a[2], b[2])} }
+func (a H) Neg() H            { return H{nf().Neg(a[0]), nf().Neg(a[1]), nf().Neg(a[2])} }
 func (a H) Norm2() *big.Float { return a.Dot(a) }
 func (a H) Scale(s *big.Float) H {
 	return H{nf().Mul(a[0], s), nf().Mul(a[1], s), nf().Mul(a[2], s)}
